@@ -12,13 +12,22 @@
 #include <stdlib.h>
 #include <errno.h>
 
-static int resolve_link(fstree_t *fs, tree_node_t *node)
+static int resolve_link(fstree_t *fs, tree_node_t *node, size_t max_hops)
 {
 	tree_node_t *start = node;
+	size_t hops = 0;
 
 	for (;;) {
 		if (!S_ISLNK(node->mode) || !(node->flags & FLAG_LINK_IS_HARD))
 			break;
+
+		/* A chain of links that does not loop passes through every
+		   unresolved link at most once. A longer walk is caught in a
+		   loop that does not contain the start node. */
+		if (hops++ >= max_hops) {
+			errno = EMLINK;
+			return -1;
+		}
 
 		if (node->flags & FLAG_LINK_RESOVED) {
 			node = node->data.target_node;
@@ -55,10 +64,16 @@ static int resolve_link(fstree_t *fs, tree_node_t *node)
 
 int fstree_resolve_hard_links(fstree_t *fs)
 {
+	size_t max_hops = 1;
+	tree_node_t *it;
+
+	for (it = fs->links_unresolved; it != NULL; it = it->next_by_type)
+		++max_hops;
+
 	while (fs->links_unresolved != NULL) {
 		tree_node_t *n = fs->links_unresolved;
 
-		if (resolve_link(fs, n)) {
+		if (resolve_link(fs, n, max_hops)) {
 			char *path = fstree_get_path(n);
 			fprintf(stderr,
 				"Resolving hard link '%s' -> '%s': %s\n",
